@@ -141,6 +141,22 @@ func enumExtMutants() []optMutant {
 	}
 }
 
+// reqMutants need a message with a required field (proto2 files only); filePkg is the package of the probed file.
+// Both are instances of the rule "required fields of an option value must be set" (R3 failure_option_required_field_unset);
+// the second packs the incomplete message into a google.protobuf.Any, which hides it from a check that only looks at the
+// top-level option message.
+func reqMutants(filePkg string) []optMutant {
+	full := "C20Req"
+	if filePkg != "" {
+		full = filePkg + ".C20Req"
+	}
+	return []optMutant{
+		{Class: "required-unset", Form: "literal", Anchor: "failure_option_required_field_unset", Bad: "option (c20req) = { o: 1 };"},
+		{Class: "required-unset", Form: "path", Anchor: "failure_option_required_field_unset2", Bad: "option (c20req).o = 1;"},
+		{Class: "required-unset-inside-any", Form: "literal", Anchor: "failure_option_required_field_unset", Bad: "option (c20anyx) = { [type.googleapis.com/" + full + "] { o: 1 } };"},
+	}
+}
+
 // controlStmts are the accepted statements of the probe message; their
 // expected values are checked by checkControlValues.
 var controlStmts = []string{
@@ -193,7 +209,13 @@ func probeSource(src, syntax, pkg string, withEnumExt bool, stmts []string) stri
 		fmt.Fprintf(&sb, "  %s.%s.OptEnum c20e = 70009;\n", opt, pkg)
 	}
 	fmt.Fprintf(&sb, "  %s.google.protobuf.Any c20any = 70011;\n  %s.google.protobuf.Any c20anyx = 70012;\n  %s.google.protobuf.Any c20anyp = 70013;\n", opt, opt, opt)
+	if syntax == "proto2" {
+		fmt.Fprintf(&sb, "  optional C20Req c20req = 70014;\n")
+	}
 	fmt.Fprintf(&sb, "}\n")
+	if syntax == "proto2" {
+		fmt.Fprintf(&sb, "message C20Req {\n  required int32 q = 1;\n  optional int32 o = 2;\n}\n")
+	}
 	fmt.Fprintf(&sb, "extend google.protobuf.FieldOptions {\n  %sint32 c20tf = 70010 [targets = TARGET_TYPE_FIELD, targets = TARGET_TYPE_ENUM];\n}\n", opt)
 	fmt.Fprintf(&sb, "message C20T {\n  %sint32 v = 1 [targets = TARGET_TYPE_ENUM];\n  %sint32 w = 2;\n}\n", opt, opt)
 	fmt.Fprintf(&sb, "message C20Probe {\n")
